@@ -234,6 +234,89 @@ fn slot_sig(n: &Node) -> Vec<String> {
 }
 
 #[allow(clippy::too_many_arguments)]
+// proxies that were failed over by a successful replace_failed_proxy call and have not been re-registered or removed since,
+// tracked by the harness itself (independent of the store's own failed_proxies bookkeeping)
+pub fn update_failed_truth(truth: &mut HashSet<u64>, toks: &[&str], res: &str, after: &MetaStore) {
+    let num = |i: usize| -> u64 { toks.get(i).and_then(|t| t.parse().ok()).unwrap_or(u64::MAX) };
+    match toks[0] {
+        "replace" if res.starts_with("repl:") || res == "err:NO_AVAILABLE_RESOURCE" => {
+            truth.insert(num(1));
+        }
+        "addproxy" if res != "err:MISSING_SERVER_PROXY_INDEX" => {
+            truth.remove(&num(1));
+        }
+        "rmproxy" if res == "ok" => {
+            truth.remove(&num(1));
+        }
+        "restore" | "svcrecover" if res == "ok" => {
+            truth.clear();
+            for a in after.failed_proxies.iter() {
+                truth.insert(id_of(a));
+            }
+        }
+        _ => (),
+    }
+}
+
+#[allow(clippy::too_many_arguments)]
+pub fn monitors_with_truth(
+    before: &MetaStore,
+    after: &MetaStore,
+    toks: &[&str],
+    res: &str,
+    clusters: &[(u64, u64, Option<Cluster>)],
+    proxies: &[(u64, u64, Option<Proxy>)],
+    prev: &mut Option<Prev>,
+    truth_before: &HashSet<u64>,
+) -> String {
+    let base = monitors(before, after, toks, res, clusters, proxies, prev);
+    let mut fails: Vec<String> = vec![];
+    if !after.enable_ordered_proxy && toks[0] != "restore" && toks[0] != "svcrecover" {
+        let old_members: HashSet<String> = before
+            .clusters
+            .values()
+            .flat_map(|c| c.chunks.iter().flat_map(|ch| ch.proxy_addresses.iter().cloned()))
+            .collect();
+        for c in after.clusters.values() {
+            for ch in c.chunks.iter() {
+                for a in ch.proxy_addresses.iter() {
+                    if !old_members.contains(a) && truth_before.contains(&id_of(a)) {
+                        fails.push(format!("C06:proxy {} was failed over earlier and never re-registered, yet it is allocated to a cluster", a));
+                    }
+                }
+            }
+            // a failed, unreplaced proxy never GAINS a master through an operation other than a failover of its partner
+            // (a rebalance must skip its chunk)
+            if toks[0] != "replace" {
+                if let Some(cb) = before.clusters.get(&c.name) {
+                    for ch in c.chunks.iter() {
+                        if let Some(chb) = cb.chunks.iter().find(|x| x.proxy_addresses == ch.proxy_addresses) {
+                            let hosts0 = |r: ChunkRolePosition| r != ChunkRolePosition::SecondChunkMaster;
+                            let hosts1 = |r: ChunkRolePosition| r != ChunkRolePosition::FirstChunkMaster;
+                            if truth_before.contains(&id_of(&ch.proxy_addresses[0])) && !hosts0(chb.role_position) && hosts0(ch.role_position) {
+                                fails.push(format!("C06:failed, unreplaced proxy {} became master again by {}", ch.proxy_addresses[0], toks[0]));
+                            }
+                            if truth_before.contains(&id_of(&ch.proxy_addresses[1])) && !hosts1(chb.role_position) && hosts1(ch.role_position) {
+                                fails.push(format!("C06:failed, unreplaced proxy {} became master again by {}", ch.proxy_addresses[1], toks[0]));
+                            }
+                        }
+                    }
+                }
+            }
+        }
+    }
+    if fails.is_empty() {
+        base
+    } else if base == "m=ok" {
+        fails.truncate(4);
+        format!("m={}", fails.join("|").replace(' ', "_").replace(';', ","))
+    } else {
+        fails.truncate(2);
+        format!("{}|{}", base, fails.join("|").replace(' ', "_").replace(';', ","))
+    }
+}
+
+#[allow(clippy::too_many_arguments)]
 pub fn monitors(
     before: &MetaStore,
     after: &MetaStore,
@@ -528,14 +611,14 @@ pub fn monitors(
             let n = before
                 .failures
                 .get(&addr)
-                .map(|m| m.values().filter(|t| r0 - **t - 500 < ttl).count())
+                .map(|m| m.values().filter(|t| r0 - **t < ttl).count())
                 .unwrap_or(0);
             if n < q {
                 fails.push(format!("C18:proxy {} listed with {} fresh reports, quorum {}", addr, n, q));
             }
         }
         for (a, m) in after.failures.iter() {
-            if m.is_empty() || m.values().any(|t| r0 - *t - 500 >= ttl + 1000) {
+            if m.is_empty() || m.values().any(|t| r0 - *t >= ttl) {
                 fails.push(format!("C18:expired or empty report set kept for {}", a));
             }
         }
@@ -554,6 +637,19 @@ pub fn monitors(
         let had = before.failures.get(&addr).map(|m| m.contains_key(&rep)).unwrap_or(false);
         if n1 != n0 + if had { 0 } else { 1 } {
             fails.push(format!("C18:report count for {} went {} -> {} (reporter known: {})", addr, n0, n1, had));
+        }
+    }
+
+    // ---- a stale descriptor (right ranges, too old epoch) names no migration: refused, nothing changes (C07 / C17 commit clauses)
+    if op == "commitstale" && toks.get(4).map(|d| *d != "0").unwrap_or(false) {
+        let pending = |s: &MetaStore| -> usize {
+            s.clusters.values().map(|c| c.chunks.iter().map(|ch| ch.migrating_slots[0].len() + ch.migrating_slots[1].len()).sum::<usize>()).sum()
+        };
+        if ok && pending(before) > 0 {
+            fails.push(format!("ANY:stale migration descriptor (epoch {} too old) was accepted by commit_migration", toks[4]));
+        }
+        if pending(before) != pending(after) {
+            fails.push("ANY:stale commit changed the pending migrations".to_string());
         }
     }
 
